@@ -386,7 +386,9 @@ class ProcessRunner(Runner, ABC):
         # Handle the log records of the tasks that have just completed.
         self._consume_log_queue()
         for future in done:
-            task = self.future_to_task[future]
+            # Forget the future as soon as it is handed out, so that it is
+            # never returned twice if the caller stops iterating early.
+            task = self.future_to_task.pop(future)
             _verif.emit('yield', t=_verif.task_id(task), cancelled=int(future.cancelled))
             if future.cancelled:
                 continue
